@@ -21,6 +21,7 @@ POOL = ["NULL", "TRUE", "FALSE", "0", "1", "(-1)", "7", "0.0", "2.5", "(-1.5)", 
         "<<< " + ", ".join("'key%d' => %d" % (i, i) for i in range(20)) + " >>>",
         # collections with repeated elements (fewer distinct elements than elements), and a count between the two
         "[1, 1]", "[1, 1, 1, 1, 1, 1, 1]", "'aaaaaaa'", "2",
+
         # objects that say how they are rendered - also when that fails
         "<*_str_ = fn(self) 'OBJ'*>", "<*_str_ = fn(self) error 'S'*>", "<*_str_ = fn(self) 5*>", "<*_str_ = 5*>"]
 PRELUDE = ""
@@ -119,6 +120,14 @@ def build(tier, rnd):
     for f in FORMS1:
         for a in P:
             cases.append((f, f.replace("$a", a), False))
+    # an int beyond the range of a binary64 next to every value of the pool, in the forms that compare, order and hash (not as a count:
+    # a result of 10^400 elements is not asked for)
+    H = "1" + "0" * 400
+    for f in ["$a in [H]", "H in [$a]", "for x in <<H, $a>> do x end", "def [p, q] = <<H, $a>>; [p, q]", "def s = <<H, $a>>; [...s]", "<<<H => 1, $a => 2>>>", "[x for x in <<H, $a>>]",
+              "[k for k in keys <<<H => 1, $a => 2>>>]", "H == $a", "H < $a", "$a <= H", "sorted([H, $a])", "H + $a", "H - $a", "H * $a", "$a / H", "H % $a", "decimal(H)", "string(H * $a)",
+              "<<H>> == <<$a>>", "compare(H, $a)", "def f(p...) p; def s = <<H, $a>>; f(...s)", "[H, $a] < [$a, H]", "<<<H => 1>>>[$a, 0]", "-H < $a < H"]:
+        for a in P:
+            cases.append(("huge:" + f, f.replace("$a", a).replace("H", H), False))
     for f in FORMS2:
         for a in P:
             for b in P:
